@@ -57,6 +57,42 @@ Record load_obs := mkLO {
   lo_max : obs Z; lo_max_f : obs Z;
   lo_target : obs Z }.
 
+(* Compact partitions for the large cases (a literal list of unary part ids in the
+   thousands would make the case file and its parsing enormous):
+     PList l                 the list itself
+     PStride c a b k len     p[i] = (c + a * (i / b)) mod k      (c < k, 0 < a <= k, 0 < b)
+     PRuns [(q, n); ...]     q repeated n times, ...
+   [expand] builds the unary ids incrementally so that they share structure. *)
+Inductive pspec :=
+| PList (l : list nat)
+| PStride (c a b k len : N)
+| PRuns (runs : list (N * N)).
+
+Fixpoint stride_list (len cur j a b k : nat) : list nat :=
+  match len with
+  | O => []
+  | S l =>
+    cur :: match j with
+           | S (S j') => stride_list l cur (S j') a b k
+           | _ => let x := (a + cur)%nat in
+                  stride_list l (if Nat.leb k x then (x - k)%nat else x) b a b k
+           end
+  end.
+
+Definition expand (s : pspec) : list nat :=
+  match s with
+  | PList l => l
+  | PStride c a b k len =>
+    stride_list (N.to_nat len) (N.to_nat c) (N.to_nat b) (N.to_nat a) (N.to_nat b) (N.to_nat k)
+  | PRuns runs => flat_map (fun qc : N * N => repeat (N.to_nat (fst qc)) (N.to_nat (snd qc))) runs
+  end.
+
+Example expand_stride :
+  expand (PStride 2 3 2 5 11) = map (fun i => (2 + 3 * (i / 2)) mod 5)%nat (seq 0 11)
+  /\ expand (PStride 0 1 1 4 9) = map (fun i => i mod 4)%nat (seq 0 9)
+  /\ expand (PRuns [(3, 2); (0, 1); (7, 3)]%N) = [3; 3; 0; 7; 7; 7]%nat.
+Proof. vm_compute. repeat split; reflexivity. Qed.
+
 Record biggrid_obs := mkBG {
   bg_rows : obs (list (list Z));         (* Topology::neighbors(&grid, v) for every v, as offsets u - v *)
   bg_cut : obs Z; bg_lam : obs Z;
@@ -71,8 +107,10 @@ Inductive case16 :=
 (* LARGE cases (thousands of vertices, around rayon / block boundaries).  Rows are
    sent as (signed offset from the row's own index, weight) so that the unary
    neighbour indices built in Coq share their representation with [seq]. *)
-| CBigGraph (offs : list (list (Z * Z))) (p : list nat) (vw : list Z) (o : graph_obs)
-| CBigGrid (dims : list nat) (offs : list (list (Z * Z))) (p : list nat) (vw : list Z) (o : biggrid_obs).
+| CBigGraph (offs : list (list (Z * Z))) (ps : pspec) (vw : list Z) (o : graph_obs)
+| CBigGrid (dims : list nat) (offs : list (list (Z * Z))) (ps : pspec) (vw : list Z) (o : biggrid_obs)
+(* MANY parts (beyond 1024) for compute_parts_load / imbalance / max_imbalance / imbalance_target *)
+| CManyLoad (depth : nat) (k : N) (ps : pspec) (ws : list Z) (targets : list Z) (o : load_obs).
 
 (* a balanced split tree of the given depth (rayon halves the index range) *)
 Fixpoint balanced (d n : nat) : split :=
@@ -162,6 +200,42 @@ Definition grid_offsets_sorted (dims : list nat) (v : nat) : list Z :=
   ++ flat_map (fun a : nat * (nat * nat) =>
                  if Nat.ltb (fst (snd a) + 1) (snd (snd a)) then [Z.of_nat (fst a)] else []) ax.
 
+(* [fast] (many parts): the literal definition [loads_def] costs k * n comparisons of unary
+   ids; the per-part sums are then obtained through the model, which equals [loads_def] for
+   EVERY split tree by C16_loads_def (and an id >= k is a Panic by C16_loads_out_of_range). *)
+Definition eval_load (fast : bool) (depth k : nat) (p : list nat) (ws targets : list Z) (o : load_obs)
+  : verdict :=
+    let t := balanced depth (Nat.min (length p) (length ws)) in
+    let ml := compute_parts_load t k p ws in
+    let mi := imbalance t k p ws in
+    let mm := max_imbalance t k p ws in
+    let mt := imbalance_target t targets p ws in
+    let corr := andl [
+      obs_corr zs_eqb ml (lo_loads o); obs_corr zs_eqb ml (lo_loads_f o);
+      obs_corr bits_eqb mi (lo_imb o); obs_corr bits_eqb mi (lo_imb_f o);
+      obs_corr Z.eqb mm (lo_max o); obs_corr Z.eqb mm (lo_max_f o);
+      obs_corr Z.eqb mt (lo_target o)] in
+    let in_contract := Nat.ltb 0 k && forallb (fun q => Nat.ltb q k) p && Nat.eqb (length p) (length ws) in
+    let prop :=
+      if in_contract then
+        match (if fast then ml else Ok (loads_def k p ws)) with
+        | Ok d =>
+          let dm := spread d in
+          andl [obs_is zs_eqb d (lo_loads o); obs_is zs_eqb d (lo_loads_f o);
+                obs_is Z.eqb dm (lo_max o); obs_is Z.eqb dm (lo_max_f o);
+                (* the f64 value: bit-for-bit against SpecFloat is part of [corr] above; the PROPERTY
+                   is closeness to the rational closed form (an algebraically equivalent rewrite of
+                   the expression would change bits without breaking the property) *)
+                obs_close k d (lo_imb o); obs_close k d (lo_imb_f o);
+                if Nat.eqb (length targets) k then
+                  obs_is Z.eqb (max_excess d targets) (lo_target o)
+                else true]
+        | _ => false
+        end
+      else true in
+    {| corr_ok := corr; prop_ok := prop;
+       cls := if in_contract then (if fast then 12 else 5) else 6 |}.
+
 Definition eval16 (c : case16) : verdict :=
   match c with
   | CGraph g p vw o =>
@@ -219,34 +293,10 @@ Definition eval16 (c : case16) : verdict :=
               obs_is Z.eqb l (gr_lam o); obs_is Z.eqb l (gr_csr_lam o); obs_is Z.eqb l (gr_gen_lam o)]
       else true in
     {| corr_ok := corr; prop_ok := prop; cls := if in_contract then 3 else 4 |}
-  | CLoad depth k p ws targets o =>
-    let t := balanced depth (Nat.min (length p) (length ws)) in
-    let ml := compute_parts_load t k p ws in
-    let mi := imbalance t k p ws in
-    let mm := max_imbalance t k p ws in
-    let mt := imbalance_target t targets p ws in
-    let corr := andl [
-      obs_corr zs_eqb ml (lo_loads o); obs_corr zs_eqb ml (lo_loads_f o);
-      obs_corr bits_eqb mi (lo_imb o); obs_corr bits_eqb mi (lo_imb_f o);
-      obs_corr Z.eqb mm (lo_max o); obs_corr Z.eqb mm (lo_max_f o);
-      obs_corr Z.eqb mt (lo_target o)] in
-    let in_contract := Nat.ltb 0 k && forallb (fun q => Nat.ltb q k) p && Nat.eqb (length p) (length ws) in
-    let prop :=
-      if in_contract then
-        let d := loads_def k p ws in
-        let dm := spread d in
-        andl [obs_is zs_eqb d (lo_loads o); obs_is zs_eqb d (lo_loads_f o);
-              obs_is Z.eqb dm (lo_max o); obs_is Z.eqb dm (lo_max_f o);
-              (* the f64 value: bit-for-bit against SpecFloat is part of [corr] above; the PROPERTY
-                 is closeness to the rational closed form (an algebraically equivalent rewrite of
-                 the expression would change bits without breaking the property) *)
-              obs_close k d (lo_imb o); obs_close k d (lo_imb_f o);
-              if Nat.eqb (length targets) k then
-                obs_is Z.eqb (max_excess d targets) (lo_target o)
-              else true]
-      else true in
-    {| corr_ok := corr; prop_ok := prop; cls := if in_contract then 5 else 6 |}
-  | CBigGraph offs p vw o =>
+  | CLoad depth k p ws targets o => eval_load false depth k p ws targets o
+  | CManyLoad depth k ps ws targets o => eval_load true depth (N.to_nat k) (expand ps) ws targets o
+  | CBigGraph offs ps vw o =>
+    let p := expand ps in
     (* matrices built with CsMat::new: must be valid.  The definition is evaluated through
        the generic model, which IS the definition by C16_cut_lower_def / C16_cut_def /
        C16_lambda_cut_def (cut_lower itself is quadratic in n). *)
@@ -274,7 +324,8 @@ Definition eval16 (c : case16) : verdict :=
         end
       else true in
     {| corr_ok := corr; prop_ok := prop; cls := 10 |}
-  | CBigGrid dims offs p vw o =>
+  | CBigGrid dims offs ps vw o =>
+    let p := expand ps in
     (* Grid with thousands of cells.  [offs] must be exactly the lattice (ascending
        closed form); the Grid's own neighbour lists must be the iterator's closed form;
        all cuts must equal the generic model on the lattice matrix (= lattice cut by
